@@ -81,17 +81,25 @@ def rule_enum_maps(stages):
         res = RuleResult("R-ENUM", "the enum-to-enum translation tables of the comparison sorts and arithmetic operators are "
                          "name-preserving: extracted from MIR as `switchInt(discriminant(x))` -> unit variant assigned in each arm "
                          "(swapping two arms compiles and no test of the middle stages notices)")
-        for stage, key, ein, eout in NAME_PRESERVING:
+        for stage, key0, ein, eout in NAME_PRESERVING:
             if stage not in stages:
                 continue
-            f = fx.fn(key)
-            fn = Fn(f)
             if ein not in fx.adts or eout not in fx.adts:
                 raise AnalysisError("R-ENUM: enum %s or %s missing" % (ein, eout))
-            maps = [m for m in enum_maps(fx, fn, ein) if any(r and r[0] == "variant" and r[1] == eout for r in m[2].values())]
-            if not maps:
-                raise AnalysisError("R-ENUM: no %s -> %s table found in %s" % (ein.split("::")[-1], eout, key))
-            for bi, adt, m in maps:
+            # every table from the one enum to the other, wherever in the stage's crate it is written (the function named in the
+            # table above on the pinned tree, or a helper extracted from it)
+            found = []
+            for key in sorted(fx.fns):
+                f = fx.fns[key]
+                if f["crate"] != stage or "{promoted" in key or ein.split("::")[-1] not in str(f.get("locals")):
+                    continue
+                fn = Fn(f)
+                for m in enum_maps(fx, fn, ein):
+                    if any(r and r[0] == "variant" and r[1] == eout for r in m[2].values()):
+                        found.append((key, fn, m))
+            if not found:
+                raise AnalysisError("R-ENUM: no %s -> %s table found in crate %s (on the pinned tree: %s)" % (ein.split("::")[-1], eout, stage, key0))
+            for key, fn, (bi, adt, m) in found:
                 for vin in [v["name"] for v in fx.adts[ein]["variants"]]:
                     r = m.get(vin)
                     ikey = "%s:%s.%s" % (key, ein.split("::")[-1], vin)
